@@ -107,7 +107,25 @@ def rule_atomic(ctx: Ctx) -> None:  # noqa: C901, PLR0915
     consts = [c.value for c in ast.walk(tval) if isinstance(c, ast.Constant) and isinstance(c.value, str)] if tval is not None else []
     sibling = ".with_name(" in tmp_src or ".with_suffix(" in tmp_src or ".parent /" in tmp_src
     reader = [c for c in consts if any(c.endswith(p_) for p_ in READER_NAME_PATTERNS)]
-    ends_plain = tval is not None and isinstance(tval, ast.Call) and tval.args and isinstance(tval.args[0], ast.JoinedStr) and tval.args[0].values and isinstance(tval.args[0].values[-1], ast.FormattedValue)
+    def ending(e: ast.AST, depth: int = 3) -> str | None:
+        """The literal text a name expression ends with ('' when it ends in an interpolated value that cannot be followed)."""
+        e = d.resolve(e)
+        if isinstance(e, ast.Constant) and isinstance(e.value, str):
+            return e.value
+        if isinstance(e, ast.JoinedStr) and e.values:
+            last = e.values[-1]
+            if isinstance(last, ast.Constant):
+                return str(last.value)
+            if isinstance(last, ast.FormattedValue) and depth:
+                inner = ending(last.value, depth - 1)
+                return "" if inner is None else inner
+            return ""
+        return None
+
+    end = ending(tval.args[0]) if tval is not None and isinstance(tval, ast.Call) and tval.args else None
+    ends_plain = end == ""  # ends in a value (the destination's own name / suffix), not in a literal marker
+    if end:
+        consts.append(end)
     ctx.tri("1-atomic", aw, tdef if tdef is not None else aw.node, sibling and any(c.endswith(".tmp") for c in consts) and not reader, bool(reader) or bool(ends_plain),
             "temporary = sibling of the destination with a name no reader pattern matches (same directory: rename stays atomic)",
             f"the temporary name `{tmp_src[:70]}` ends like the files readers look for: a half-written temporary is taken for a completed result", f"temporary name `{tmp_src[:60]}` not classified", key="tmp-name")
@@ -144,9 +162,10 @@ def _existence_guarded(ctx: Ctx, fn: FuncInfo, node: ast.AST, target: str) -> bo
     while id(x) in par:
         child, x = x, par[id(x)]
         if isinstance(x, ast.IfExp):
-            t, pol = cond(x.test)
-            if t in want and ((child is x.body and pol) or (child is x.orelse and not pol)):
-                return True
+            for test in (x.test, d.resolve(x.test)):  # as written, and with a named flag replaced by its definition
+                t, pol = cond(test)
+                if t in want and ((child is x.body and pol) or (child is x.orelse and not pol)):
+                    return True
     cfg = ctx.cfg(fn)
     cn = cfg.node_containing(node)
     if cn is None:
@@ -435,6 +454,15 @@ def rule_three_valued(ctx: Ctx) -> None:
                     n += 1
                     facts = guard_facts(cfg, d, st)
                     excluded = any(t == f"{name} is None" and not pol for t, pol in facts)
+                    if not excluded:
+                        # path-sensitive: can the test be reached at all while the value is None (flags set on the way are followed)?
+                        from ..flow import reachable_tracking_flags
+
+                        r_ = reachable_tracking_flags(cfg, d, st, {f"{name} is None": True}, start=cfg.node(tri_vars[name]))
+                        if r_ is None:
+                            ctx.add("6-gate", fn, cfg.stmt[st], None, f"UNDECIDED: whether `{name}` can still be None at `{norm(test)[:40]}` (too many conditions to enumerate)", key=f"three-valued {fn.name}.{name} {norm(test)[:30]}")
+                            continue
+                        excluded = r_ is False
                     ctx.add("6-gate", fn, cfg.stmt[st], excluded, f"`{name}` is tested for truth only after None was handled" if excluded else
                             f"`{norm(test)[:40]}` tests the three-valued `{name}` (True / False / None = could not compare) for truth where it can still be None: 'could not compare' is treated as 'differs' and an identical re-run is refused", key=f"three-valued {fn.name}.{name} {norm(test)[:30]}")
     ctx.floor("6-gate.three-valued", n, 2)
